@@ -160,6 +160,10 @@ theorem step_tlOk {P : APlan} {c c' : Ctl} {l : List AEv} {lb : Lbl} {o : Option
     · cases hs
       cases caller <;> simp_all [tlOk, optList]
     · cases hs
+  | observe =>
+    cases caller <;> simp only [step] at hs <;> try (cases hs)
+    split at hs <;> cases hs
+    simp [tlOk]
 
 theorem run_tl {P : APlan} {c : Ctl} {l : List AEv} (h : Run P c l) : tlOk P l c.caller := by
   induction h with
